@@ -81,6 +81,9 @@ def run(tier):
     _selftest_guarded(rep, selftest, recs, wd)
     rep.assumptions.append("build profile `verif` has debug-assertions off: ml_dsa_sign/ml_dsa_verify are the cfg(not(debug_assertions)) "
                            "ML-DSA-65 path (a run where no verification succeeds is a tool error)")
+    # specification growth hosted here (threshold group membership and roles): conformance, informational (MODEL-DRIFT, never a VIOLATION)
+    import growth_tgroup
+    growth_tgroup.run(rep, wd, big)
     return rep.finish(
         rule="case = one verification call (entry point, key/message/signature tokens, verdict), one write-authorisation call, one "
              "update-package call, one address-bound identity check, or one aggregated run of single-bit flips of a signature / key "
